@@ -975,8 +975,22 @@ static void build_expr(WorkList *list, ASTNode *expr, Environment *env) {
                                        op == TOKEN_STAR || op == TOKEN_SLASH || op == TOKEN_PERCENT ||
                                        op == TOKEN_AND || op == TOKEN_OR);
                     
+                    /* A comparison used as an operand keeps its own parentheses: `(== (< a b) c)` is
+                     * (a < b) == c, not a < b == c */
+                    bool operand_is_cmp[2] = { false, false };
+                    for (int oi = 0; oi < 2; oi++) {
+                        ASTNode *operand = expr->as.prefix_op.args[oi];
+                        if (operand && operand->type == AST_PREFIX_OP && operand->as.prefix_op.arg_count == 2) {
+                            TokenType oop = operand->as.prefix_op.op;
+                            operand_is_cmp[oi] = (oop == TOKEN_EQ || oop == TOKEN_NE || oop == TOKEN_LT ||
+                                                  oop == TOKEN_LE || oop == TOKEN_GT || oop == TOKEN_GE);
+                        }
+                    }
+
                     if (needs_parens) emit_literal(list, "(");
+                    if (operand_is_cmp[0]) emit_literal(list, "(");
                     build_expr(list, expr->as.prefix_op.args[0], env);
+                    if (operand_is_cmp[0]) emit_literal(list, ")");
                     
                     const char *op_str = NULL;
                     switch (op) {
@@ -996,7 +1010,9 @@ static void build_expr(WorkList *list, ASTNode *expr, Environment *env) {
                         default: op_str = " OP "; break;
                     }
                     emit_literal(list, op_str);
+                    if (operand_is_cmp[1]) emit_literal(list, "(");
                     build_expr(list, expr->as.prefix_op.args[1], env);
+                    if (operand_is_cmp[1]) emit_literal(list, ")");
                     if (needs_parens) emit_literal(list, ")");
                 }
             } else if (arg_count == 1) {
